@@ -181,7 +181,9 @@ def run(tier):
     for T, c, v in probes():
         for layout in (("alone", "middle", "first", "last") if thorough or c != "fits" else ("alone", "middle")):
             if T == "digest" and layout != "alone":
-                continue   # no record with a digest field can be written at all, so there are no good records to put around the probe
+                continue
+            if layout == "first" and T in ("path", "net.ipaddress", "string[]", "command", "dynamic", "stringlist", "net.tcp.Port"):
+                continue   # a refused FIRST record fixes the writer's descriptor: later records of another type are refused too (with an error: allowed)   # no record with a digest field can be written at all, so there are no good records to put around the probe
             cases.append(history(T, c, v, "value", layout))
             ctx.case((T, c, repr(v)[:30], layout))
     for T in ("varint", "string", "path"):
